@@ -47,7 +47,7 @@ func init() {
 		Meta: func(tier string) fw.Meta {
 			na, nb := c11Sizes(tier)
 			return fw.Meta{N: na + nb, Level: "fault_enumeration", Chunk: 8, CaseTimeoutS: 240, MinNT: 60,
-				Rule:        "(a) one case = one seeded input set (1..4 ascending inputs, overlapping for the compacting merges, disjoint for Merge) run through Merge / MergeCompact with both reductions / MergeCompactIterator: single fault at EVERY Next position of EVERY input (variants: fail-then-continue, fail-repeatedly, fail-then-end) and at EVERY WriteNext position, plus sampled double faults; oracle: error returned, or output identical to the fault-free output. (b) one case = one SimpleDB scenario in a sub-process (flush of a memstore, or one compaction cycle over 2..4 tables) with one fault: k-th data append / k-th index append of the stream writer, p-th record of an input iterator, or RLIMIT_FSIZE = L bytes (kernel-level EFBIG at the first write crossing L); oracle: process stopped or error returned, never success with reads differing from the model; after a reported error the same process and a fresh process must still read the model. evaluations = fault runs; non-trivial = fault actually reached; distinct by (input hash, fault)",
+				Rule:        "(a) one case = one seeded input set (1..4 ascending inputs, overlapping for the compacting merges, disjoint for Merge) run through Merge / MergeCompact with both reductions / MergeCompactIterator: single fault at EVERY Next position of EVERY input (variants: fail-then-continue, fail-repeatedly, fail-then-end) and at EVERY WriteNext position, plus sampled double faults; oracle: error returned, or output identical to the fault-free output. (b) one case = one SimpleDB scenario in a sub-process (flush of a memstore, one compaction cycle over 2..4 tables, or the flush that Open performs for the replayed WAL of a hand-placed kill image) with one fault: k-th data append / k-th index append of the stream writer, p-th record of an input iterator, or RLIMIT_FSIZE = L bytes (kernel-level EFBIG at the first write crossing L); oracle: process stopped or error returned, never success with reads differing from the model; after a reported error the same process and a fresh process must still read the model. evaluations = fault runs; non-trivial = fault actually reached; distinct by (input hash, fault)",
 				MinObs:      map[string]int64{"merger_fault_runs": 3000, "merger_faults_reached": 2000, "merger_errors_reported": 1000, "db_fault_scenarios": 100, "db_fault_reached": 40, "db_process_stopped_or_error": 30, "rlimit_faults_reached": 5},
 				Assumptions: []string{"hook-level failures are clean failures; RLIMIT_FSIZE failures are real EFBIG results of write(2) through the real buffered writers", "a flush failure ends the process (log.Panicf) — the recoverability of what it leaves behind belongs to C02"},
 			}
@@ -459,6 +459,9 @@ func c11Sub(args []string) int {
 		_ = enc.Encode(rep)
 		return 0
 	}
+	if *mode == "recovery" {
+		return c11Recovery(*dir, *fault, strings.Split(*keysArg, ","), enc)
+	}
 	wbuf := uint64([]int{64, 256, 4096}[r.Intn(3)])
 	db, err := simpledb.NewSimpleDB(*dir, simpledb.DisableCompactions(), simpledb.MemstoreSizeBytes(1<<30),
 		simpledb.WriteBufferSizeBytes(wbuf), simpledb.CompactionFileThreshold(0), simpledb.CompactionMaxSizeBytes(1<<40))
@@ -521,6 +524,9 @@ func c11Sub(args []string) int {
 	}
 	_ = enc.Encode(c11Report{Phase: "armed", Model: model, Tables: len(db.VerifLiveTables())})
 	_ = os.Stdout.Sync()
+	if *mode == "craft" {
+		os.Exit(0) // no Close: a kill image whose newest data only lives in the WAL
+	}
 
 	// arm
 	var oldLim syscall.Rlimit
@@ -609,6 +615,61 @@ func c11Sub(args []string) int {
 	return 0
 }
 
+// c11Recovery opens a kill image with a fault armed: the flush that recovery performs for the replayed WAL must
+// report the failure through Open (or stop the process), never absorb it.
+func c11Recovery(dir, fault string, keys []string, enc *json.Encoder) int {
+	var oldLim syscall.Rlimit
+	rlimit := false
+	parts := strings.Split(fault, ":")
+	switch parts[0] {
+	case "data", "index":
+		fmt.Sscan(parts[1], &c11plan.k)
+		c11plan.kind = parts[0]
+		c11plan.armed = true
+		sstables.VerifWriterWrap = func(_ string, idx rProto.WriterI, data recordio.WriterI) (rProto.WriterI, recordio.WriterI) {
+			return &c11Index{idx}, &c11Data{data}
+		}
+	case "rlimit":
+		var l uint64
+		fmt.Sscan(parts[1], &l)
+		_ = syscall.Getrlimit(syscall.RLIMIT_FSIZE, &oldLim)
+		if err := syscall.Setrlimit(syscall.RLIMIT_FSIZE, &syscall.Rlimit{Cur: l, Max: oldLim.Max}); err == nil {
+			rlimit = true
+		}
+	}
+	db, err := simpledb.NewSimpleDB(dir, simpledb.DisableCompactions(), simpledb.WriteBufferSizeBytes(256))
+	if err == nil {
+		err = db.Open()
+	}
+	if rlimit {
+		_ = syscall.Setrlimit(syscall.RLIMIT_FSIZE, &oldLim)
+	}
+	c11plan.mu.Lock()
+	c11plan.armed = false
+	rep := c11Report{Phase: "result", Reached: c11plan.reached}
+	c11plan.mu.Unlock()
+	sstables.VerifWriterWrap = nil
+	if err != nil {
+		rep.Err = err.Error()
+		if rlimit && strings.Contains(err.Error(), "file too large") {
+			rep.Reached = true
+		}
+		_ = enc.Encode(rep)
+		return 0
+	}
+	reads, rerr := c11ReadAll(db, keys)
+	rep.Reads = reads
+	if rerr != nil {
+		rep.Err = "read-back: " + rerr.Error()
+	}
+	_ = enc.Encode(rep)
+	_ = os.Stdout.Sync()
+	if err := db.Close(); err != nil {
+		_ = enc.Encode(c11Report{Phase: "closed", CloseErr: err.Error()})
+	}
+	return 0
+}
+
 func c11DiffReads(model, reads map[string]*string) string {
 	var ks []string
 	for k := range model {
@@ -642,8 +703,12 @@ func c11DB(c *fw.Case, j int) {
 	scenario := j / 12
 	spec := j % 12
 	mode := "flush"
-	if scenario%2 == 1 {
+	switch scenario % 3 {
+	case 1:
 		mode = "compaction"
+	case 2:
+		c11DBRecovery(c, j, scenario, spec)
+		return
 	}
 	var fault string
 	switch {
@@ -754,6 +819,94 @@ func c11DB(c *fw.Case, j int) {
 	}
 	if j%40 == 0 {
 		c.Sample(map[string]any{"scenario": desc, "error_reported": result.Err, "fault_reached": result.Reached, "tables": result.Tables, "selected": result.Selected})
+	}
+}
+
+// c11DBRecovery: kill image with data only in the WAL, then Open with a fault inside recovery's own flush.
+func c11DBRecovery(c *fw.Case, j, scenario, spec int) {
+	r := c.R
+	var fault string
+	switch {
+	case spec < 3:
+		fault = fmt.Sprintf("data:%d", []int{0, 1 + r.Intn(3), 2 + r.Intn(6)}[spec])
+	case spec < 6:
+		fault = fmt.Sprintf("index:%d", []int{0, 1 + r.Intn(3), 2 + r.Intn(6)}[spec-3])
+	default:
+		fault = fmt.Sprintf("rlimit:%d", []int{r.Intn(9), 9 + r.Intn(60), 60 + r.Intn(300), 200 + r.Intn(1500), 8 + r.Intn(2000), 8 + r.Intn(400)}[spec-6])
+	}
+	c.HashAdd(scenario, "recovery", fault)
+	c.Obs("db_fault_scenarios", 1)
+	c.Obs("db_recovery_flush_scenarios", 1)
+	seed := fw.CaseSeed("C11-scenario", c.Seed, scenario)
+	craft := fw.RunSub("", 90, nil, c.Dir, "c11sub", "-dir", c.Dir, "-mode", "craft", "-fault", "none", "-seed", fmt.Sprint(seed))
+	var armed *c11Report
+	for _, ln := range bytes.Split(craft.Stdout, []byte("\n")) {
+		var rep c11Report
+		if json.Unmarshal(ln, &rep) == nil && rep.Phase == "armed" {
+			rr := rep
+			armed = &rr
+		}
+	}
+	if armed == nil {
+		c.Inconclusive("crafting the kill image failed: " + cutS(craft.Stderr, 300))
+		return
+	}
+	var ks []string
+	for k := range armed.Model {
+		ks = append(ks, k)
+	}
+	sort.Strings(ks)
+	desc := fmt.Sprintf("mode=recovery-flush fault=%s scenario=%d", fault, scenario)
+	kind := strings.Split(fault, ":")[0]
+	res := fw.RunSub("", 90, nil, c.Dir, "c11sub", "-dir", c.Dir, "-mode", "recovery", "-fault", fault, "-keys", strings.Join(ks, ","))
+	if res.TimedOut {
+		c.Inconclusive("recovery sub-process watchdog expired")
+		return
+	}
+	var result *c11Report
+	for _, ln := range bytes.Split(res.Stdout, []byte("\n")) {
+		var rep c11Report
+		if json.Unmarshal(ln, &rep) == nil && rep.Phase == "result" {
+			rr := rep
+			result = &rr
+		}
+	}
+	if result == nil {
+		c.Obs("db_process_stopped_or_error", 1)
+		c.Obs("db_fault_reached", 1)
+		c.Nontrivial()
+		return
+	}
+	if result.Reached {
+		c.Obs("db_fault_reached", 1)
+		if kind == "rlimit" {
+			c.Obs("rlimit_faults_reached", 1)
+		}
+		c.Nontrivial()
+	}
+	if result.Err != "" {
+		c.Obs("db_process_stopped_or_error", 1)
+		return
+	}
+	if result.Reached {
+		c.Violate("db-fault/absorbed/recovery-flush/"+kind, "%s: the injected failure was reached inside Open but Open reported success", desc)
+		return
+	}
+	if d := c11DiffReads(armed.Model, result.Reads); d != "" {
+		c.Violate("db-fault/reads-differ-after-recovery-flush/success-reported/"+kind, "%s: %s", desc, d)
+		return
+	}
+	if res.Exit != 0 {
+		return
+	}
+	v := fw.RunSub("", 60, nil, c.Dir, "c11sub", "-dir", c.Dir, "-mode", "verify", "-keys", strings.Join(ks, ","))
+	var vr c11Report
+	if json.Unmarshal(bytes.TrimSpace(v.Stdout), &vr) != nil || vr.OpenErr != "" {
+		c.Violate("db-fault/reopen-fails/recovery-flush/"+kind, "%s: Open had reported success; the next Open fails: %s %s", desc, vr.OpenErr, cutS(v.Stderr, 300))
+		return
+	}
+	if d := c11DiffReads(armed.Model, vr.Reads); d != "" {
+		c.Violate("db-fault/reads-differ-after-reopen/recovery-flush/"+kind, "%s: Open had reported success; after the next Open: %s", desc, d)
 	}
 }
 
